@@ -40,6 +40,22 @@ class Node:
             return f"{self.kind} {norm(self.ast)[:60]}"
         return norm(self.ast)[:100]
 
+    def parts(self) -> list:
+        """AST fragments evaluated *at this node* (a handler node does not own its body, a loop node not its body)."""
+        a = self.ast
+        if a is None or self.kind in ("join", "dispatch", "with-exit", "entry", "exit", "raise"):
+            return []
+        if self.kind == "handler":
+            return [a.type] if getattr(a, "type", None) is not None else []
+        if self.kind == "iter":
+            return [a.target, a.iter]
+        if isinstance(a, (ast.FunctionDef, ast.AsyncFunctionDef, ast.ClassDef)):
+            return []
+        return [a]
+
+    def contains(self, target: ast.AST) -> bool:
+        return any(y is target for p in self.parts() for y in ast.walk(p))
+
     def __repr__(self) -> str:
         return f"<{self.id}:{self.kind}:{self.line}:{self.text()[:40]}>"
 
